@@ -28,7 +28,8 @@ LEVEL_TEXT = ("Machine-checked proof (Coq, closed under the global context; libr
               "Q_C, V/I strings or K changes the hash input; an unaltered run ends with equal K and H and the verified "
               "host key stored; any single-field corruption of the reply (host key blob, public value, signature) is "
               "refused; an accepted reply under the honest key is authentic; session_id is the first H after any "
-              "sequence of exchanges; tied to the real engines and Transport by a differential run of the model "
+              "sequence of exchanges; _check_banner keeps the peer's identification line unchanged; an accepted signature "
+              "blob passed every pre-verification test present in _verify_key; tied to the real engines and Transport by a differential run of the model "
               "(vm_compute) on recorded transcripts plus an implementation-level oracle with tamper runs.")
 LEVEL_NOTE = ("PARTIAL: symbolic cryptography.  The hash is assumed injective, signatures are a free algebra "
               "(C06_tamper_abort) or unforgeable (C06_accept_authentic), ECDH / X25519 commutation "
@@ -38,6 +39,11 @@ LEVEL_NOTE = ("PARTIAL: symbolic cryptography.  The hash is assumed injective, s
               "message parsing, _activate_outbound and NEWKEYS sequencing are not modelled (the oracle checks that a "
               "client that must abort never activates its outbound keys).  A swapped host key together with a fresh "
               "signature by that key's owner is accepted by design (host key pinning is HostKeys' job, C02/C03).  "
+              "KNOWN FINDINGS on the current tree (fix proposed in fixes/C06-reject-trailing-signature-data.diff, modelled by the "
+              "generated flag verify_canonical_guard): bytes appended after the two strings of the signature blob (all key "
+              "types) and after (r, s) inside an ECDSA signature are ignored, so such an altered reply is accepted -- the "
+              "verified content is unchanged.  Key derivation (_compute_key) is C04's model; here only the oracle compares "
+              "installed keys with the RFC derivation under session id = first H.  "
               "Trusted: Coq kernel + vm_compute, gen/c06.py (fail-closed AST translator), this harness.")
 TECHNIQUE = ("Coq proof over AST-translated transcript layouts (injectivity from C39, symbolic signatures) + vm_compute "
              "differential correspondence on recorded transcripts + loopback handshakes with rekeys and reply tampering")
@@ -248,7 +254,45 @@ def merge(fam, crec, srec):
 # ----------------------------------------------------------------------------- reply tampering
 
 FAULTS = ["hostkey-swap", "hostkey-other-type", "hostkey-bitflip", "pub-changed", "sig-bitflip",
-          "sig-other-key", "sig-other-data", "sig-empty"]
+          "sig-other-key", "sig-other-data", "sig-empty",
+          # same value, different bytes: junk / padding around the encoded fields
+          "sig-inner-prepend", "sig-inner-append", "sig-blob-append", "hostkey-append", "hostkey-field-pad"]
+# faults whose acceptance on the current tree is a registered finding (strict parsing is missing, the
+# verified content is unchanged); any other accepted fault is a violation
+KNOWN_KEYS = {"sig-blob-append": "sig-trailing-data-accepted"}
+
+
+def fault_key(fault, alg, case):
+    if fault in KNOWN_KEYS:
+        return KNOWN_KEYS[fault]
+    if fault == "sig-inner-append" and alg.startswith("ecdsa-"):
+        return "ecdsa-sig-trailing-data-accepted"
+    return "tamper-accepted:%s%s" % (fault, "" if case.get("exchange", 1) == 1 else ":rekey")
+
+
+def split3(blob):
+    """string || string || rest"""
+    from paramiko.message import Message
+    m = Message(blob)
+    a = m.get_binary()
+    b = m.get_binary()
+    return a, b, m.get_remainder()
+
+
+def last_field_pad(blob):
+    """prepend a zero byte to the last length-prefixed field of a key blob (same number, other bytes)"""
+    fields = []
+    pos = 0
+    while pos + 4 <= len(blob):
+        n = struct.unpack(">I", blob[pos:pos + 4])[0]
+        if pos + 4 + n > len(blob):
+            break
+        fields.append(blob[pos + 4:pos + 4 + n])
+        pos += 4 + n
+    if not fields or pos != len(blob):
+        return blob + b"\x00"
+    fields[-1] = b"\x00" + fields[-1]
+    return b"".join(rfc_string(f) for f in fields)
 
 
 def split_reply(fam, payload):
@@ -306,6 +350,17 @@ def tamper(fault, fam, cls, payload, alg, keys, get_H, rng):
         sig = key.sign_ssh_data(bytes(h), alg).asbytes()
     elif fault == "sig-empty":
         sig = b""
+    elif fault in ("sig-inner-prepend", "sig-inner-append"):
+        a, inner, rest = split3(sig)
+        junk = bytes([rng.choice([0, 0, rng.randrange(1, 256)])]) * rng.randrange(1, 4)
+        inner = junk + inner if fault == "sig-inner-prepend" else inner + junk
+        sig = rfc_string(a) + rfc_string(inner) + rest
+    elif fault == "sig-blob-append":
+        sig = sig + rng.choice([b"\x00", b"\x00\x00\x00\x00", rfc_string(b"junk")])
+    elif fault == "hostkey-append":
+        ks = ks + rng.choice([b"\x00", b"\x00\x00\x00\x00", rfc_string(b"junk")])
+    elif fault == "hostkey-field-pad":
+        ks = last_field_pad(ks)
     else:
         raise ValueError(fault)
     return join_reply(ks, pub, sig)
@@ -471,7 +526,7 @@ def check_honest(ctx, where, name, cls, fam, alg, crec, srec, client_key_blob, c
 
 def check_abort(ctx, where, name, fault, aborted, activated, exc, case):
     if not aborted or activated:
-        ctx.fail("tamper-accepted:%s%s" % (fault, "" if case.get("exchange", 1) == 1 else ":rekey"),
+        ctx.fail(fault_key(fault, case.get("hostkey") or "", case),
                  "%s: client accepted a kex reply whose %s was altered (kex %s, exchange %s)%s" % (
                      where, fault, name, case.get("exchange", 1), "; outbound keys were activated" if activated else ""),
                  case=case, expected="client aborts (SSHException) before NEWKEYS",
@@ -523,10 +578,12 @@ def run_direct(ctx, keys, model_cases, dh_cases):
         # tamper runs: on the initial exchange and on a re-key (2nd / 3rd exchange over the same transports)
         if T:
             plan = [(f, k) for f in FAULTS for k in ((1, 2) if big else (1, 2, 3))]
+        elif big:
+            plan = [(FAULTS[(ei + j * 3) % len(FAULTS)], k) for j, k in enumerate((1, 2, 1, 2))]
         else:
-            plan = [(FAULTS[(ei + j * 3) % len(FAULTS)], k) for j, k in enumerate((1, 2, 1 if big else 3, 2))]
+            plan = [(f, 1 + (ei + j) % 3) for j, f in enumerate(FAULTS)]
         for fault, nex in plan:
-            alg = algs[(ei + FAULTS.index(fault) + nex) % len(algs)] if not T else rng.choice(algs)
+            alg = algs[(ei + 2 * FAULTS.index(fault) + nex) % len(algs)] if not T else rng.choice(algs)
             case = {"mode": "direct", "kex": name, "hostkey": alg, "old_style": False, "fault": fault, "exchange": nex}
             o = direct_exchange(name, cls, fam, alg, keys, rng, fault, exchanges=nex)
             ctx.count(("direct-fault", name, alg, fault, nex), nontrivial=o["fault_applied"],
@@ -616,14 +673,36 @@ def tamper_packetizer(ptype_target, alter, nth=1):
     return TamperPacketizer
 
 
-def loopback(name, cls, fam, alg, keys, rng, rekeys=0, fault=None, fault_at=1):
+BANNERS = [None, "SSH-2.0-verifpeer_1.0 build 42", "SSH-2.0-x_1 ", "SSH-1.99-srv_0.9 two words  ", "SSH-2.0-a-b-c",
+           "SSH-2.0-verif_peer comment with-dash SSH-2.0"]
+
+
+def rec_loop_socket():
+    from _loop import LoopSocket
+
+    class RecLoop(LoopSocket):
+        """LoopSocket that remembers the first line this side put on the wire."""
+        _c06_sent = b""
+
+        def send(self, data):
+            if b"\n" not in self._c06_sent:
+                self._c06_sent += bytes(data)
+            return super().send(data)
+
+        def first_line(self):
+            line = self._c06_sent.split(b"\n", 1)[0]
+            return line[:-1] if line.endswith(b"\r") else line
+    return RecLoop
+
+
+def loopback(name, cls, fam, alg, keys, rng, rekeys=0, fault=None, fault_at=1, banners=(None, None)):
     """Real handshake over a LoopSocket pair; returns both sides' records and the outcome.
     With a fault: exchange number `fault_at` (1 = initial, 2.. = re-key) gets its reply altered."""
     import paramiko
-    from _loop import LoopSocket
     from paramiko.kex_group14 import KexGroup14
     RT = rec_transport_class()
-    a, b = LoopSocket(), LoopSocket()
+    LS = rec_loop_socket()
+    a, b = LS(), LS()
     a.link(b)
     ts = RT(b)
     kw = {}
@@ -640,8 +719,10 @@ def loopback(name, cls, fam, alg, keys, rng, rekeys=0, fault=None, fault_at=1):
         while time.time() - t0 < 10 and not (ts._rec()["newkeys"] >= nk and tc._rec()["newkeys"] >= nk):
             time.sleep(0.005)
     try:
-        for t in (tc, ts):
+        for t, bn in ((tc, banners[0]), (ts, banners[1])):
             t.get_security_options().kex = [name]
+            if bn is not None:
+                t.local_version = bn
         tc.get_security_options().key_types = [alg]
         ts.add_server_key(keys[alg][0])
         if fam == 1:
@@ -674,6 +755,8 @@ def loopback(name, cls, fam, alg, keys, rng, rekeys=0, fault=None, fault_at=1):
                              initial_kex_done=tc.initial_kex_done,
                              remote_key=tc.host_key.asbytes() if tc.host_key is not None else None)
         out["server"] = dict(ts._rec(), sid=ts.session_id, K=ts.K, H=ts.H)
+        out["client"]["wire_line"], out["server"]["wire_line"] = a.first_line(), b.first_line()
+        out["client"]["remote_version"], out["server"]["remote_version"] = tc.remote_version, ts.remote_version
         return out
     finally:
         tc.close()
@@ -682,13 +765,39 @@ def loopback(name, cls, fam, alg, keys, rng, rekeys=0, fault=None, fault_at=1):
         b.close()
 
 
-def do_loopback(name, cls, fam, alg, keys, rng, rekeys=0, fault=None, fault_at=1):
-    st, o = with_watchdog(lambda: loopback(name, cls, fam, alg, keys, rng, rekeys, fault, fault_at), 120)
+def do_loopback(name, cls, fam, alg, keys, rng, rekeys=0, fault=None, fault_at=1, banners=(None, None)):
+    st, o = with_watchdog(lambda: loopback(name, cls, fam, alg, keys, rng, rekeys, fault, fault_at, banners), 120)
     return o if st == "ok" else {"harness_problem": "%s %r" % (st, o)}
+
+
+def check_versions(ctx, o, case):
+    """V_C / V_S each side will hash = the exact identification line the peer put on the wire (RFC 4253 4.2, 8)."""
+    c, s = o["client"], o["server"]
+    ok = True
+    for side, me, peer in (("client", c, s), ("server", s, c)):
+        if me["remote_version"] is None:
+            continue
+        got = me["remote_version"].encode("utf-8") if isinstance(me["remote_version"], str) else me["remote_version"]
+        if got != peer["wire_line"]:
+            ctx.fail("remote-version-not-exact", "%s: remote_version (the V_%s it hashes) is not the exact identification "
+                     "line the peer sent, without CR LF" % (side, "S" if side == "client" else "C"), case=dict(case, side=side),
+                     expected=peer["wire_line"], observed=got)
+            ok = False
+    return ok
+
+
+BANNER_CASES = []
 
 
 def check_loop_honest(ctx, name, cls, fam, alg, rekeys, o, case, model_cases, latch_cases):
     c, s = o["client"], o["server"]
+    check_versions(ctx, o, case)
+    for me, peer in ((c, s), (s, c)):
+        if me["remote_version"] is not None and len(BANNER_CASES) < (400 if ctx.thorough else 40):
+            BANNER_CASES.append((coq(list(peer["wire_line"])), list(asb(me["remote_version"])), case))
+    for rec, r in ((c["kex"], c), (s["kex"], s)):
+        for k in rec:
+            k["version"] = r["wire_line"]     # what this side really sent, not what it believes it sent
     if o["exc"] is not None or o["rekey_exc"] is not None:
         e = o["exc"] or o["rekey_exc"]
         ctx.fail("honest-handshake-fails:" + name, "an unaltered %s raised %s: %s" % (
@@ -759,16 +868,17 @@ def run_loopback(ctx, keys, model_cases, latch_cases):
                 if "group16" in nm and j % 3 != i % 3:
                     continue
                 combos.append((nm, alg, [1, 0, 2, 0, 1, 3, 0][(i + j) % 7] if "group16" not in nm else (i + j) % 2))
-    for nm, alg, rekeys in combos:
+    for ci, (nm, alg, rekeys) in enumerate(combos):
         cls, fam = eng[nm]
-        case = {"mode": "handshake", "kex": nm, "hostkey": alg, "rekeys": rekeys, "fault": None}
-        o = do_loopback(nm, cls, fam, alg, keys, rng, rekeys)
+        bn = (BANNERS[ci % len(BANNERS)], BANNERS[(ci // 2 + 3) % len(BANNERS)])
+        case = {"mode": "handshake", "kex": nm, "hostkey": alg, "rekeys": rekeys, "fault": None, "banners": list(bn)}
+        o = do_loopback(nm, cls, fam, alg, keys, rng, rekeys, banners=bn)
         if "harness_problem" in o:
-            o = do_loopback(nm, cls, fam, alg, keys, rng, rekeys)
+            o = do_loopback(nm, cls, fam, alg, keys, rng, rekeys, banners=bn)
         if "harness_problem" in o:
             ctx.notes.append("handshake %r did not finish: %s" % (case, o["harness_problem"]))
             continue
-        ctx.count(("handshake", nm, alg, rekeys), kind="handshake:rekeys=%d" % rekeys)
+        ctx.count(("handshake", nm, alg, rekeys, bn), kind="handshake:rekeys=%d" % rekeys)
         n += 1
         check_loop_honest(ctx, nm, cls, fam, alg, rekeys, o, case, model_cases, latch_cases)
         if len(ctx.samples) < 4:
@@ -776,17 +886,21 @@ def run_loopback(ctx, keys, model_cases, latch_cases):
                         "H_per_exchange": [k["H"] for k in o["client"]["kex"]]})
     # (c) tamper runs, on the initial exchange and on the 2nd / 3rd (re-key)
     tcombos = []
+    light = [nm for nm in names if "group16" not in nm]
     if T:
         for nm in names:
             for fault in FAULTS:
                 for k, alg in enumerate(rng.sample(algs, 1 if "group16" in nm else 2)):
                     tcombos.append((nm, alg, fault, (2 if "group16" in nm else 1 + k * rng.randrange(1, 3))))
+        for j, fault in enumerate(FAULTS):
+            for a, alg in enumerate(algs):
+                tcombos.append((light[(j * len(algs) + a) % len(light)], alg, fault, 1 + (j + a) % 3))
     else:
-        for i, nm in enumerate(names):
-            for j, fault in enumerate(FAULTS):
-                if "group16" in nm and j % 4 != i % 4:
-                    continue
-                tcombos.append((nm, algs[(i + 2 * j) % len(algs)], fault, 1 + (i + j) % (2 if "group16" in nm else 3)))
+        for j, fault in enumerate(FAULTS):
+            for a, alg in enumerate(algs):
+                tcombos.append((light[(j * len(algs) + a) % len(light)], alg, fault, 1 + (j + a) % 3))
+        for j in range(4):
+            tcombos.append(("diffie-hellman-group16-sha512", algs[j % len(algs)], FAULTS[(3 * j + 1) % len(FAULTS)], 1 + j % 2))
     for nm, alg, fault, at in tcombos:
         cls, fam = eng[nm]
         case = {"mode": "handshake", "kex": nm, "hostkey": alg, "rekeys": at - 1, "fault": fault, "exchange": at}
@@ -815,7 +929,8 @@ def run_loopback(ctx, keys, model_cases, latch_cases):
 # ----------------------------------------------------------------------------- run / replay
 
 def compare_models(ctx, model_cases, dh_cases, latch_cases):
-    jobs = [("run_hash_input", "(Z * Z * transcript)", model_cases, 40),
+    jobs = [("run_banner", "(list Z)", list(BANNER_CASES), 200),
+            ("run_hash_input", "(Z * Z * transcript)", model_cases, 40),
             ("run_dh", "(Z * Z * Z * Z)", dh_cases, 4),
             ("run_latch", "(list (Z * list Z))", latch_cases, 60)]
     results = {}
@@ -845,10 +960,12 @@ def run(ctx):
                 "real Transport methods (fresh random V/I strings, host key types rotated over rsa sha1/256/512, ecdsa "
                 "256/384/521, ed25519; gex also old-style; pinned 40-bit exponents for the Coq DH evaluation), (b) run in "
                 "real loopback handshakes per kex in Transport._preferred_kex x host key algorithm with 0-3 "
-                "renegotiate_keys(), (c) re-run with exactly one field of the server's reply altered (host key swapped for "
+                "renegotiate_keys(), with identification strings that carry comments / trailing spaces / 1.99 on either "
+                "side (remote_version must be the exact line on the wire), (c) re-run with exactly one field of the server's reply altered (host key swapped for "
                 "another key of the same / another type, bit flipped in the key blob, f / Q_S replaced by another valid "
                 "value, signature bit flipped / made by another key over the same H / made by the right key over other "
-                "data / emptied) -- on the initial exchange or on the 2nd / 3rd exchange (re-key) of the same transports.  "
+                "data / emptied; junk or zero padding prepended / appended to the inner signature string, appended to the "
+                "signature blob or the key blob, a key field zero-padded; every fault x every host key algorithm) -- on the initial exchange or on the 2nd / 3rd exchange (re-key) of the same transports.  "
                 "Every key a transport installs (_compute_key result) is compared with an independent RFC 4253 7.2 "
                 "derivation whose session id is the FIRST exchange hash.  A case is non-trivial when distinct and, for tamper runs, when the reply really changed")
     ctx.trusted += ["gen/c06.py translator (fail-closed): layout / reply_sent / reply_read / setkh_prog / verify_over in Gen/C06_gen.v",
@@ -863,6 +980,7 @@ def run(ctx):
     logging.getLogger("paramiko").propagate = False
     keys = host_keys(ctx.repo)
     model_cases, dh_cases, latch_cases = [], [], []
+    del BANNER_CASES[:]
     with hash_recording():
         t0 = time.time()
         n = run_direct(ctx, keys, model_cases, dh_cases)
@@ -870,7 +988,7 @@ def run(ctx):
         t0 = time.time()
         n = run_loopback(ctx, keys, model_cases, latch_cases)
         ctx.log("loopback: %d handshakes in %.1fs" % (n, time.time() - t0))
-    ctx.traces = len(model_cases) + len(dh_cases) + len(latch_cases)
+    ctx.traces = len(model_cases) + len(dh_cases) + len(latch_cases) + len(BANNER_CASES)
     compare_models(ctx, model_cases, dh_cases, latch_cases)
 
 
@@ -903,7 +1021,7 @@ def replay(ctx, rep):
                                 o["activated_after"] > o["activated_before"], o["exc"], case)
             else:
                 o = do_loopback(case["kex"], cls, fam, alg, keys, ctx.rng, int(case.get("rekeys") or 0), fault,
-                                int(case.get("exchange") or 1))
+                                int(case.get("exchange") or 1), tuple(case.get("banners") or (None, None)))
                 if "harness_problem" in o:
                     continue
                 if fault is None:
